@@ -1,6 +1,7 @@
 # Sizing and claim for C01 (well-formed text transcodes losslessly, every route)
 SPEC = {
-    "quick": {"rc_cases": 3000, "rc_procs": 12, "enum": True},
+    "variants": {"": [], "uchar": ["-funsigned-char"]},   # the second build variant uses an unsigned plain char (-funsigned-char: the ARM / AArch64 / PowerPC default); in the quick tier it runs a reduced number of generated cases and no enumerators
+    "quick": {"rc_cases": 3000, "rc_procs": 12, "enum": True, "variant_cfg": {"uchar": {"rc_cases": 1500, "rc_procs": 4, "enum": False}}},
     "thorough": {"rc_cases": 20000, "rc_procs": 12, "enum": True, "fuzz_secs": 0},
     "assumptions": [
         "harness/ref/ref_unicode.h encoders are the standard UTF-8/16/32 encodings",
